@@ -27,6 +27,8 @@ func main() {
 	switch *prop {
 	case "C19":
 		runC19(*seed, *count, *replay)
+	case "C03":
+		runC03(*seed, *count)
 	default:
 		fmt.Fprintln(os.Stderr, "nvh: unknown property", *prop)
 		os.Exit(2)
